@@ -320,7 +320,7 @@ pub fn msg_len(npk: i64) -> usize {
 
 pub fn msg_bytes(s: i64, j: i64, npk: i64) -> Vec<u8> {
     // 8 bytes of the payload are bincode's length prefix
-    payload((s * 100 + j) as u64, msg_len(npk) - 8)
+    payload((s * 1000 + j) as u64, msg_len(npk) - 8)
 }
 
 /// `vharness sched-child <server-name> <s> <npk,npk,..>`: sends its messages, parking at every
@@ -383,7 +383,7 @@ fn recv_result(r: Result<Vec<u8>, TryRecvError>) -> Value {
             } else {
                 0
             };
-            let (s, j) = ((tag / 100) as i64, (tag % 100) as i64);
+            let (s, j) = ((tag / 1000) as i64, (tag % 1000) as i64);
             json!({"res": "msg", "m": [s, j], "len": d.len(), "intact": d == payload(tag, d.len())})
         },
         Err(TryRecvError::Empty) => json!({"res": "empty"}),
